@@ -259,6 +259,25 @@ func (wd *world) actSubscribe(t *rapid.T) {
 	}
 }
 
+// listResolveMatch applies the reference rule the repository's TestMatchList
+// fixes (a pattern starting with the delimiter is absolute; a reference is a
+// name prefix, completed with the delimiter when it lacks it), then listMatch.
+func listResolveMatch(name, ref, pat string) bool {
+	if strings.HasPrefix(pat, "/") {
+		ref, pat = "", pat[1:]
+	}
+	if ref != "" {
+		if !strings.HasSuffix(ref, "/") {
+			ref += "/"
+		}
+		if !strings.HasPrefix(name, ref) {
+			return false
+		}
+		name = name[len(ref):]
+	}
+	return listMatch(name, pat)
+}
+
 // listMatch: RFC 3501 6.3.8 wildcard matching ('*' any, '%' any but the delimiter).
 func listMatch(name, pat string) bool {
 	if pat == "" {
@@ -292,9 +311,12 @@ func listMatch(name, pat string) bool {
 
 func (wd *world) actList(t *rapid.T) {
 	s := wd.anySess(t)
-	pats := []string{"*", "%", "A*", "A/%", "*x", "INBOX", "B/%/%", "%/%", "*/*", "C*", "B", "Z*", "*d", "A%"}
+	pats := []string{"*", "%", "A*", "A/%", "*x", "INBOX", "B/%/%", "%/%", "*/*", "C*", "B", "Z*", "*d", "A%",
+		// wildcard-free, relative and absolute (leading delimiter) patterns
+		"x", "y/z", "A/x", "C d", "/A", "/INBOX", "/B/%", "y/%", "/*"}
 	pat := pats[pick(t, "pattern", len(pats))]
-	ref := []string{"", "", "", "A/", "B/"}[pick(t, "ref", 5)]
+	// references with and without the trailing delimiter
+	ref := []string{"", "", "", "A/", "B/", "A", "B", "B/y"}[pick(t, "ref", 8)]
 	mode := pick(t, "mode", 5)
 	var text string
 	subOnly := false
@@ -317,7 +339,7 @@ func (wd *world) actList(t *rapid.T) {
 	wd.query("LIST")
 	want := map[string]bool{}
 	for n, b := range wd.st.boxes {
-		if listMatch(n, ref+pat) && (!subOnly || b.subscribed) {
+		if listResolveMatch(n, ref, pat) && (!subOnly || b.subscribed) {
 			want[n] = true
 		}
 	}
